@@ -169,6 +169,11 @@ RESOLVER = {
 
 def eligible_for_model(s):
     """Scenario features the Resolver model does not cover (they are still judged on real traces)."""
+    # (the model has no notion of a returned value being an error: scenarios converting to the error type are judged
+    #  on the real traces only)
+    odd = {"E", "PE"}
+    if any(l["type"] in odd for l in s["target"]["in"] + s["inputs"]):
+        return False
     return not s.get("gens") and not any(c.get("nilOut") for c in s["convs"])
 
 
